@@ -460,6 +460,49 @@ def check(idx, run):
               "same number of mesh-property arguments for stub and call",
               f"kern_args adds a different number of arguments for the "
               f"stub and for the call: {detail}", loc(dmod, kargs))
+    # nfaces_re_h: the mesh-property code omits it when "the reference-
+    # element code already passes it"; that test has to name exactly the
+    # properties for which DynReferenceElement passes nfaces_re_h
+    rcls = idx.get_class("psyclone.dynamo0p3.DynReferenceElement")
+    rinit = rcls.methods.get("__init__")
+
+    def ref_props(expr):
+        return {n.attr for n in ast.walk(expr) if isinstance(n, ast.Attribute)
+                and "RefElementMetaData.Property" in ast.unparse(n.value)}
+    passed_for = None
+    for stmt in ast.walk(rinit):
+        if isinstance(stmt, ast.If) and any(
+                isinstance(a, ast.Assign) and
+                ast.unparse(a.targets[0]) == "self._nfaces_h_symbol"
+                for a in stmt.body):
+            passed_for = ref_props(stmt.test)
+    if not passed_for:
+        raise AnalysisError("DynReferenceElement.__init__: the condition "
+                            "under which nfaces_re_h is passed was not "
+                            "found")
+    has = [a for a in ast.walk(kargs) if isinstance(a, ast.Assign) and
+           ast.unparse(a.targets[0]) == "has_nfaces"]
+    if len(has) != 1:
+        raise AnalysisError("LFRicMeshProperties.kern_args: the "
+                            "'has_nfaces' test was not found")
+    assumed = ref_props(has[0].value)
+    membership = all(
+        isinstance(c, ast.Compare) and isinstance(c.ops[0], ast.In) and
+        "reference_element.properties" in ast.unparse(c.comparators[0])
+        for c in (has[0].value.values if isinstance(has[0].value, ast.BoolOp)
+                  and isinstance(has[0].value.op, ast.Or)
+                  else [has[0].value]))
+    run.check(
+        "C21.R2", membership and assumed == passed_for,
+        "LFRicMeshProperties.kern_args",
+        "nfaces_re_h omitted exactly when the reference-element arguments "
+        "already contain it",
+        f"adjacent_face omits its nfaces_re_h argument when "
+        f"'{' '.join(ast.unparse(has[0].value).split())[:120]}' but the "
+        f"reference-element code passes nfaces_re_h only for "
+        f"{sorted(passed_for)}: for other properties the argument is "
+        f"missing from the call and from the stub's dummy list (which "
+        f"still uses it to dimension adjacent_face)", loc(dmod, has[0]))
     run.assumptions = [
         "eval_shapes = the quadrature shapes that have an entry in "
         "qr_rules plus at most one evaluator shape (reviewed "
